@@ -733,16 +733,16 @@ func (e *Engine) setupSort() {
 		n, _ := e.objs["uuidseq"].(int)
 		n++
 		e.objs["uuidseq"] = n
-		out := make(arrayV, 16)
-		for i := range out {
-			out[i] = BV(8, 0)
+		out := &byteArr{b: make([]*Term, 16)}
+		for i := range out.b {
+			out.b[i] = BV(8, 0)
 		}
-		out[0] = BV(8, 0x5e)
-		out[6] = BV(8, 0x40)
-		out[8] = BV(8, 0x80)
-		out[14] = BV(8, uint64(n>>8))
-		out[15] = BV(8, uint64(n))
-		return out
+		out.b[0] = BV(8, 0x5e)
+		out.b[6] = BV(8, 0x40)
+		out.b[8] = BV(8, 0x80)
+		out.b[14] = BV(8, uint64(n>>8))
+		out.b[15] = BV(8, uint64(n))
+		return byteArrayV{out}
 	}
 	e.ext["sort.Slice"] = sortSlice
 	e.ext["sort.SliceStable"] = sortSlice
